@@ -129,7 +129,8 @@ def run_text_shapes(chk, gen, runner, shapes, judge, stats, config=None, symboli
             if r.kind != 'ok':
                 continue
             mods = r.value['mods']
-            nwarn = sum(len(w) for _, _, w in mods)
+            # warnings of the generator (mirsym) + warnings the natively run linker/validator already produced
+            nwarn = sum(len(w) for _, _, w in mods) + len(ra.get('warnings', []))
             ts_mods = [t for t in r.value['ts'] if t.toks and len(t.toks) > 2]
             items = []
             for t in ts_mods:
